@@ -49,7 +49,7 @@ def main():
     ax, ay = pred("ge", var("x"), const(0)), pred("le", var("y"), const(1))
     past = [un("once", ax), un("histT", ay, 0, 2), bi("since", ax, ay), bi("sinceT", ax, ay, 1, 2), un("prev", ax), un("rise", ay)]
     U = (F[::4] if quick else F) + pof + past
-    r = mc.rtamt_mc("C16_extend", U, [mc.std_cfg(["x", "y"])], maxlen=4 if quick else 6, mode="offline",
+    r = mc.rtamt_mc("C16_extend", U, [mc.std_cfg(["x", "y"])], maxlen=4 if quick else 5, mode="offline",
                     invariants=["InvC01"], properties=["ActC16"])
     rep.add_mc("every (trace, extension-by-one) pair as a transition, bounded-future + past formulas", r)
     if r["violated"]:
